@@ -12,7 +12,10 @@ package main
 //	GSL <hex>                      isSingleLine (as NewID's verdict) → "0|1"
 
 import (
+	"bufio"
+	"errors"
 	"fmt"
+	"io"
 	"math/rand"
 	"strings"
 
@@ -77,6 +80,52 @@ func runGFP(a []string) string {
 	return fmt.Sprintf("%s | %s | %s", fs, e, b01(fp.Started()))
 }
 
+// GSCAN <cap|-> <max|-> <endErr 0|1> <errWithLast 0|1> <chunks>: bufio.Scanner with go-sse's split function over a
+// scripted reader: Scan until false → "<token>,… | <Err class>"
+func runGSCAN(a []string) string {
+	if len(a) != 5 {
+		return "bad-args"
+	}
+	rd := &scriptedReader{chunks: unhxList(a[4]), endErr: io.EOF, errWithLast: a[3] == "1"}
+	var cs [][]byte
+	for _, c := range rd.chunks {
+		if len(c) > 0 {
+			cs = append(cs, c)
+		}
+	}
+	rd.chunks = cs
+	if a[2] == "1" {
+		rd.endErr = errRead
+	}
+	sc := bufio.NewScanner(rd)
+	sc.Split(sse.VerifSplitFunc)
+	if a[0] != "-" {
+		sc.Buffer(make([]byte, 0, atoi(a[0])), atoi(a[1]))
+	}
+	var toks []string
+	for n := 0; sc.Scan(); n++ {
+		toks = append(toks, hx(sc.Bytes()))
+		if n > 1<<20 {
+			return "LOOP"
+		}
+	}
+	e := "nil"
+	switch err := sc.Err(); {
+	case err == nil:
+	case errors.Is(err, errRead):
+		e = "READ"
+	case errors.Is(err, bufio.ErrTooLong):
+		e = "TOOLONG"
+	default:
+		e = "OTHER:" + strings.ReplaceAll(err.Error(), " ", "_")
+	}
+	t := "-"
+	if len(toks) > 0 {
+		t = strings.Join(toks, ",")
+	}
+	return t + " | " + e
+}
+
 func runGSL(a []string) string {
 	if len(a) != 1 {
 		return "bad-args"
@@ -102,6 +151,16 @@ func genGEN(rng *rand.Rand, n int, thorough bool, emit func(string)) {
 			}
 		}
 		h := hx(b)
+		if rng.Intn(5) == 0 {
+			// the scanner over a segmented stream, default or configured buffer (limits around the stream's size)
+			capS, maxS := "-", "-"
+			if rng.Intn(2) == 0 {
+				capS = fmt.Sprint(pick(rng, 0, 0, 1, 4, 16, 64, 4096))
+				maxS = fmt.Sprint(pick(rng, 0, 1, 2, 5, 8, 16, 33, len(b), len(b)+1, len(b)/2+1, 4096, 65536))
+			}
+			emit(fmt.Sprintf("GSCAN %s %s %d %d %s", capS, maxS, rng.Intn(2), rng.Intn(2), hxList(segmentStream(rng, b))))
+			continue
+		}
 		switch rng.Intn(6) {
 		case 0:
 			emit("GNLI " + h)
@@ -123,5 +182,6 @@ func init() {
 	runners["GSPLIT"] = runGSPLIT
 	runners["GFP"] = runGFP
 	runners["GSL"] = runGSL
+	runners["GSCAN"] = runGSCAN
 	generators["GEN"] = genGEN
 }
